@@ -469,6 +469,17 @@ def build_instance_tree(
             for arg in sym_arguments:
                 if arg.value.component.indices != [[None]]:
                     raise Exception("Subscripting modifiers is not allowed.")
+                if arg.value.component.child:
+                    # Dotted spelling of an attribute modification ("x.start = 1"):
+                    # the same as "x(start = 1)".
+                    attr_arg = ast.ClassModificationArgument()
+                    attr_arg.scope = arg.scope
+                    attr_arg.value = ast.ElementModification(
+                        component=arg.value.component.child[0],
+                        modifications=arg.value.modifications,
+                    )
+                    sym_mod.arguments.append(attr_arg)
+                    continue
                 for el_arg in arg.value.modifications:
                     # Behavior is different depending on whether the value is
                     # being set (which is an unnamed field not explicitly
@@ -522,6 +533,17 @@ def build_instance_tree(
                     raise Exception("Subscripting modifiers is not allowed.")
 
                 if inheriting_from_builtin:
+                    if arg.value.component.child:
+                        # Dotted spelling of an attribute modification ("x.start = 1"):
+                        # the same as "x(start = 1)".
+                        attr_arg = ast.ClassModificationArgument()
+                        attr_arg.scope = arg.scope
+                        attr_arg.value = ast.ElementModification(
+                            component=arg.value.component.child[0],
+                            modifications=arg.value.modifications,
+                        )
+                        sym_mod.arguments.append(attr_arg)
+                        continue
                     for el_arg in arg.value.modifications:
                         if not isinstance(el_arg, ast.ClassModification):
                             # If the value is being set, we make a new class
